@@ -291,6 +291,41 @@ func leakKind(cur *ex.E, name string) string {
 			}
 		}
 	}
+	// the same index operation as a step of a splat trail: l[*][key], l[*].a[key]
+	if cur.K == "splat" && len(cur.A) == 1 && pool.Closed(cur.A[0]) {
+		for i, st := range cur.Trail {
+			if st.K != "idx" || st.Key == nil {
+				continue
+			}
+			inKey := false
+			for _, n := range pool.FreeVars(st.Key) {
+				if n == name {
+					inKey = true
+				}
+			}
+			if !inKey {
+				continue
+			}
+			prefix := ex.Splat(cur.A[0], cur.Full, cur.Trail[:i]...)
+			if !pool.Closed(prefix) {
+				continue
+			}
+			ce := parse(prefix)
+			if ce == nil {
+				continue
+			}
+			v, diags := ce.Value(&hcl.EvalContext{Variables: pool.Vars, Functions: pool.ImplFuncs()})
+			if diags.HasErrors() || !v.IsWhollyKnown() || v.IsNull() || !v.CanIterateElements() {
+				continue
+			}
+			for it := v.ElementIterator(); it.Next(); {
+				_, ev := it.Element()
+				if ev.Type().IsObjectType() {
+					return "idx-object-marked-key"
+				}
+			}
+		}
+	}
 	return k
 }
 
